@@ -166,14 +166,7 @@ impl Mac {
         let mut otaa = otaa::Otaa::new(credentials);
         let dev_nonce = otaa.prepare_buffer::<RNG, N>(rng, buf);
         self.state = State::Otaa(otaa);
-        // A join leaves the previous session behind: receive parameters the network of that
-        // session commanded (RXParamSetupReq) mean nothing to the network being joined, which
-        // answers in, and then uses, the regional default windows until it negotiates others.
-        self.configuration.rx1_dr_offset = 0;
-        self.configuration.rx2_data_rate = None;
-        self.configuration.rx2_frequency = None;
-        // ... and so do the RX1 frequencies its DlChannelReq commands paired the channels with.
-        self.region.forget_downlink_frequencies();
+        self.forget_negotiated_windows();
         let (mut tx_config, tx_channel) =
             self.region.create_tx_config(rng, self.configuration.data_rate, &Frame::Join);
         tx_config.adjust_power(self.board_eirp.max_power, self.board_eirp.antenna_gain);
@@ -182,7 +175,20 @@ impl Mac {
 
     /// Join via ABP. This does not transmit a join request frame, but instead sets the session.
     pub(crate) fn join_abp(&mut self, nwkskey: NwkSKey, appskey: AppSKey, devaddr: DevAddr) {
+        self.forget_negotiated_windows();
         self.state = State::Joined(Session::new(nwkskey, appskey, devaddr));
+    }
+
+    /// A new activation leaves the previous session behind: receive parameters the network of
+    /// that session commanded (RXParamSetupReq, RXTimingSetupReq, DlChannelReq) mean nothing to
+    /// the network of the new one, which answers in, and then uses, the regional default windows
+    /// until it negotiates others.
+    fn forget_negotiated_windows(&mut self) {
+        self.configuration.rx1_delay = region::constants::RECEIVE_DELAY1;
+        self.configuration.rx1_dr_offset = 0;
+        self.configuration.rx2_data_rate = None;
+        self.configuration.rx2_frequency = None;
+        self.region.forget_downlink_frequencies();
     }
 
     /// Join via ABP. This does not transmit a join request frame, but instead sets the session.
